@@ -29,10 +29,19 @@ InitReading(z) ==
       start |-> IF which = "none" THEN None ELSE Some(s),
       end |-> IF which = "both" THEN Some(R(s..10)) ELSE None]
 
+\* a random permutation of a sequence
+RECURSIVE Shuffle(_, _)
+Shuffle(z, s) == IF s = <<>> THEN <<>>
+                 ELSE LET i == RandomElement(1..Len(s))
+                      IN <<s[i]>> \o Shuffle(z, [j \in 1..(Len(s) - 1) |-> IF j < i THEN s[j] ELSE s[j + 1]])
+
+\* the clock option and (mostly) an initial reading, in either order
 Prog(k) ==
   LET hasInit == Flip(k, 70)
+      opts == Shuffle(k, <<[kind |-> "clock", init |-> NoReading]>>
+                         \o (IF hasInit THEN <<[kind |-> "init", init |-> InitReading(k)]>> ELSE <<>>))
   IN [model |-> "meter", n |-> k,
-      cfg |-> [hasInit |-> hasInit, init |-> IF hasInit THEN InitReading(k) ELSE NoReading],
+      cfg |-> [opts |-> opts, hasInit |-> HasOpt(opts, "init"), init |-> ConfReading(opts)],
       ops |-> [j \in 1..R(10..MaxOps) |-> Op(k)]]
 
 GenInit == c \in { Prog(k) : k \in 1..NCases }
